@@ -78,6 +78,14 @@ func fsMachine(p *Prog, copyAtomic bool) *Machine {
 	m.Hooks["(io/fs.FileMode).Perm"] = func(m *Machine, st *State, call *ssa.CallCommon, args []Val) ([]Val, bool) {
 		return []Val{args[0]}, true
 	}
+	m.Hooks["(io/fs.FileMode).IsDir"] = func(m *Machine, st *State, call *ssa.CallCommon, args []Val) ([]Val, bool) {
+		mode, ok := args[0].(int64)
+		return []Val{mode&(1<<31) != 0}, ok
+	}
+	m.Hooks["(io/fs.FileMode).IsRegular"] = func(m *Machine, st *State, call *ssa.CallCommon, args []Val) ([]Val, bool) {
+		mode, ok := args[0].(int64)
+		return []Val{mode&(1<<31) == 0}, ok
+	}
 	m.Hooks["io.Copy"] = func(m *Machine, st *State, call *ssa.CallCommon, args []Val) ([]Val, bool) {
 		eff(st, "iocopy")
 		return []Val{tagged{&TupleV{E: []Val{int64(10), nilV{}}}, "iocopy=ok"}, tagged{&TupleV{E: []Val{int64(3), IfaceV{T: errType, V: "failed iocopy"}}}, "iocopy=fail"}}, true
@@ -99,6 +107,18 @@ func fsMachine(p *Prog, copyAtomic bool) *Machine {
 				if pp, ok := iv.V.(Ptr); ok {
 					if o, ok := st.Heap[pp.Obj].V.(OpaqueV); ok {
 						return []Val{o.Name == "fileinfo:dir"}, true
+					}
+				}
+			}
+		}
+		if call.Method.Name() == "Mode" {
+			if iv, ok := recv.(IfaceV); ok {
+				if pp, ok := iv.V.(Ptr); ok {
+					if o, ok := st.Heap[pp.Obj].V.(OpaqueV); ok {
+						if o.Name == "fileinfo:dir" {
+							return []Val{int64(1) << 31}, true // fs.ModeDir
+						}
+						return []Val{int64(0644)}, true
 					}
 				}
 			}
